@@ -114,7 +114,9 @@ FVWMA(s, cs, i) ==
   THEN LET vol == CandlesSum(cs, s.p, Ref("volume"), i)
            pv  == SumR([k \in 1..s.p |-> Mul(X(cs, i - k + 1, Ref("close")),
                                               X(cs, i - k + 1, Ref("volume")))])
-       IN IF IsZero(vol) THEN One1(AnyV) ELSE One1(QV(Div(pv, vol)))
+       \* no volume in the window: any finite value is accepted from the code (C09 leaves it open,
+       \* C10 bounds it); the model takes the unweighted mean
+       IN IF IsZero(vol) THEN <<QV(WindowMean(cs, Ref("close"), s.p, i)), AnyV>> ELSE One1(QV(Div(pv, vol)))
   ELSE One1(NoneV)
 
 \* HMA: raw = 2*WMA(p/2) - WMA(p) (managed, unrounded); result = WMA(raw, isqrt p)
